@@ -12,11 +12,12 @@ BOUNDS = {"keys": "hostile / confusable key set (path separators, '..', absolute
                          "with the paths it passes; what the modelled crates do below that boundary is outside the claim",
           "data": "any length", "cache_location": "a directory whose parent directories are otherwise empty (so that over-eager cleanup would be visible)"}
 
+NEIGHBOURS = [".dest.partial", ".dest.tmp", "dest.tmp", "dest.partial", "dest~", ".dest.swp", "other"]
 TWINS = [("A", "a"), ("\u00e9", "e\u0301"), ("k/..", "k"), ("x\0y", "x")]
 ALLOWED = re.compile(rb"^(tmp|index-v5|content-v2|sha1|sha256|sha384|sha512|xxh3|\.tmp[0-9A-Za-z]+|[0-9a-f]{2}|[0-9a-f]{8,})$")
 
 
-def check_trace(ctx, scn, tag, mark, what, extra_ok=(), readonly=False, key=None, cache_dir=None):
+def check_trace(ctx, scn, tag, mark, what, extra_ok=(), readonly=False, key=None, cache_dir=None, native_outside=None):
     cache_comps = path_components(SBytes.of(cache_dir or CACHE))[1]
     for rec in scn.env.trace[mark:]:
         if not rec.get("mutating"):
@@ -36,7 +37,7 @@ def check_trace(ctx, scn, tag, mark, what, extra_ok=(), readonly=False, key=None
             inside = is_abs and len(comps) >= len(cache_comps) and all(a.key() == b.key() for a, b in zip(comps, cache_comps))
             if not inside:
                 ctx.expect(False, tag + ":outside:" + rec["kind"], "%s touched a path outside the cache directory: %r" % (what, pc),
-                           native={"kind": "tree_eq_outside_untouched"})
+                           native=native_outside or {"kind": "tree_eq_outside_untouched"})
                 return
             for c in comps[len(cache_comps):]:
                 txt = sb.concretise_atoms(c)
@@ -104,6 +105,31 @@ def confined(ctx, key, op, api):
     elif op in ("copy", "hard_link", "reflink"):
         out = scn.extract(op, ROOT + "/dest", key=key)
         extra = (ROOT + "/dest",)
+    elif op in ("copy_over", "hard_link_over", "reflink_over"):
+        # the destination exists already and has neighbours with temporary-looking names: the extraction may
+        # replace the destination, and nothing else
+        import hashlib
+        scn.fs_mkdir_p(ROOT + "/outdir")
+        G = scn.blob("G")
+        scn.fs_write(ROOT + "/outdir/dest", scn.whole(G))
+        for nm in NEIGHBOURS:
+            scn.fs_write(ROOT + "/outdir/" + nm, b"mine:" + nm.encode())
+        mark = len(scn.env.trace)
+        out = scn.extract(op[:-5], ROOT + "/outdir/dest", key=key)
+        extra = (ROOT + "/outdir/dest",)
+        allowed = {"neighbour.txt": {"len": 7}, "outdir/dest": None}
+        for nm in NEIGHBOURS:
+            b = b"mine:" + nm.encode()
+            allowed["outdir/" + nm] = {"len": len(b), "sha256": hashlib.sha256(b).hexdigest()}
+        nat_out = {"kind": "outside_only", "allowed": allowed}
+        expect_no_panic(ctx, out, tag, op)
+        check_trace(ctx, scn, tag, mark, op, extra_ok=extra, key=key, native_outside=nat_out)
+        for nm in NEIGHBOURS:
+            f = scn.file_at(SBytes.of(ROOT + "/outdir/" + nm))
+            b = b"mine:" + nm.encode()
+            ctx.expect(f is not None and f.kind == "file" and f.sb.is_concrete() and f.sb.concrete() == b, tag + ":neighbour-of-dest",
+                       "%s onto an existing destination changed or removed the unrelated file %r next to it" % (op, nm), native=nat_out)
+        return
     elif op == "remove":
         out = scn.remove(key)
     elif op == "remove_hash":
@@ -174,7 +200,7 @@ def tasks(tier, flavours):
     out = []
     keys = HOSTILE_KEYS if tier != "quick" else ["../../x", "/abs", "k\té\n\"\\", "nul\0key"]
     ops = ["write", "write_hash", "streamed", "read", "read_hash", "metadata", "exists", "list", "stream", "copy", "hard_link", "reflink",
-           "remove", "remove_hash", "remove_fully", "remove_then_fully", "clear"]
+           "copy_over", "hard_link_over", "reflink_over", "remove", "remove_hash", "remove_fully", "remove_then_fully", "clear"]
     for fl in flavours:
         api = "sync" if fl == "sync" else "async"
         for i, op in enumerate(ops):
